@@ -104,6 +104,7 @@ type FuncVC struct {
 	skolems     map[string][][]Term
 	funCache    map[string]string
 	stable      []*Loc
+	stableDone  bool
 	curInstr    ssa.Instruction
 	cellConst   map[*ssa.FreeVar]Term
 	closureOf   map[string]*ssa.Function
